@@ -43,6 +43,15 @@ func elems(x interface{}) bool { return true }
 // fresh(p) in a postcondition: p was allocated by this call
 func fresh(x interface{}) bool { return true }
 
+// allocated(p): p is nil or an object existing in the current state
+func allocated(x interface{}) bool { return true }
+
+// sameSlice(a, b): identical slice headers (array, offset, length, capacity)
+func sameSlice(a, b interface{}) bool { return true }
+
+// specSameRef: reference equality (Go refuses m1 == m2 on maps)
+func specSameRef(a, b interface{}) bool { return a == b }
+
 // sameArray: the two slices are views of the same underlying array (the translator compares the
 // array identities; natively: overlapping capacity ranges)
 func sameArray(a, b []byte) bool {
